@@ -1533,6 +1533,7 @@ cipher_ref(struct item *it, const uint8_t *in, uint8_t *out)
 /* custom callbacks used as dispatch probes (C06) */
 int g_custom_trace[8];
 int g_custom_ntrace;
+__thread int g_custom_fail; /* bit 0: the cipher callback reports failure, bit 1: the hash callback does */
 int
 imbv_custom_cipher(IMB_JOB *job)
 {
@@ -1541,7 +1542,7 @@ imbv_custom_cipher(IMB_JOB *job)
                 g_custom_trace[g_custom_ntrace++] = 1;
         for (uint64_t i = 0; i < job->msg_len_to_cipher_in_bytes; i++)
                 job->dst[i] = in[i] ^ 0xA5;
-        return 0;
+        return g_custom_fail & 1;
 }
 int
 imbv_custom_hash(IMB_JOB *job)
@@ -1553,7 +1554,7 @@ imbv_custom_hash(IMB_JOB *job)
         for (uint64_t i = 0; i < job->msg_len_to_hash_in_bytes; i++)
                 sum = sum * 31 + in[i];
         memcpy(job->auth_tag_output, &sum, job->auth_tag_output_len_in_bytes > 4 ? 4 : job->auth_tag_output_len_in_bytes);
-        return 0;
+        return (g_custom_fail >> 1) & 1;
 }
 
 /* ------------------------------------------------------------------ reference: hashes */
